@@ -536,6 +536,20 @@ def direction_elements(P):
     return [R[:, 0], R[:, 1], R[:, 2]]
 
 
+def _frame(z):
+    e1, e2 = orth_basis(unit(ca(z)))
+    return np.array([e1, e2, unit(ca(z))]).T
+
+
+def directed_cases(fname):
+    """fixed inputs that are always part of the domain (reconnaissance findings of the design phase)"""
+    if fname == "line_segment_to_circle":
+        a, b, c, n = ca([0, -1, -0.5]), ca([2, -1, -0.5]), ca([0, -0.5, 0.5]), ca([0, 0, 1])
+        return [(dict(kind="segment", a=a, b=b, R=_frame(b - a), t=0.5 * (a + b)), dict(kind="circle", c=c, r=2.0, n=n, R=_frame(n), t=c),
+                 "directed/segment-under-circle")]
+    return []
+
+
 def axis_cosines(A, B):
     """(|cos|, |sin|) of every pair (direction element of A, direction element of B)"""
     res = []
@@ -719,16 +733,18 @@ def _worker_c10(task):
     fname, k1, k2 = FUNCS[fi]
     rng = np.random.default_rng([seed, 10, fi, chunk])
     out = dict(fi=fi, n=0, fails=[], digests=set(), nontrivial=set(), samples=[], classes={})
-    for i in range(n):
-        A, B, tag = make_scene(k1, k2, rng)
-        mark_progress(i)
+    directed = directed_cases(fname) if chunk == 0 else []
+    for i in range(n + len(directed)):
+        A, B, tag = directed[i - n] if i >= n else make_scene(k1, k2, rng)
+        mark_progress(min(i, n - 1))
         fails, d, p1, p2 = check_c10(fname, A, B)
         out["n"] += 1
         dg = case_digest(fname, A, B)
         out["digests"].add(dg)
         if nontrivial(A, B, d, scene_L(A, B)):
             out["nontrivial"].add(dg)
-        out["classes"][tag.split("/")[1] + "/" + tag.split("/")[2]] = out["classes"].get(tag.split("/")[1] + "/" + tag.split("/")[2], 0) + 1
+        cls = "/".join(tag.split("/")[1:3])
+        out["classes"][cls] = out["classes"].get(cls, 0) + 1
         for ob, detail in fails:
             out["fails"].append(dict(contract="distance." + fname, obligation=ob, detail="[%s] %s" % (tag, detail),
                                      input=dict(primitive1=describe(A), primitive2=describe(B))))
